@@ -127,6 +127,16 @@ class Stats:
             elif k not in self.extra:
                 self.extra[k] = v
 
+    def merge_counts(self, other):
+        """merge everything but the failure buckets (used when a sub-enumeration runs inside a
+        Hypothesis body that re-raises its first failure itself)"""
+        saved = other.failures
+        other.failures = {}
+        try:
+            self.merge(other)
+        finally:
+            other.failures = saved
+
     @property
     def distinct_nontrivial(self):
         return len(self.nt_hashes) + self.nt_counted
